@@ -483,8 +483,10 @@ def render(prog, root, rng=None, extra_parens=0.0, layout="canon", eol="\n", sem
             nd["ln"] = [0, 0]
     if layout in ("oneline", "tokline"):
         src = relayout(prog, root, src, layout)
-    if layout in ("spread", "tokline"):
-        widen_to_statement(prog, root)
+    # the property's rule: an error names a line of the innermost statement (the line itself when
+    # the statement is on one line).  A statement can span lines in every layout (an embedded
+    # function body), so expression spans are always widened to their statement / block header.
+    widen_to_statement(prog, root)
     if eol != "\n":
         src = src.replace("\n", eol)
     return src
